@@ -310,7 +310,27 @@ def h_quoting(e: str) -> bool:
 
 _B = {"quick": {"n": 2, "blen": 2, "elen": 4}, "thorough": {"n": 3, "blen": 3, "elen": 6}}
 
+
+def body_store_etags_menu(i0, i1, target):
+    """`body_store_etags` over the token menu (see _store.menu_steps): exhaustive for every partition."""
+    return _store.menu_steps(body_store_etags, i0, i1, target, with_hist=False)
+
+
+def h_store_etags_menu(i0: int, i1: int, target: int) -> bool:
+    """
+    pre: 0 <= i0 < 6 and 0 <= i1 < 6 and 0 <= target < 6
+    post: _
+    """
+    return run(body_store_etags_menu, i0, i1, target)
+
 HARNESSES = [
+    Harness("store_etags_menu", h_store_etags_menu, body_store_etags_menu, classes=[("menu:put", ("bare", 0, 0))],
+            parts={"quick": _store.parts(mstore.KINDS)}, bounds={"quick": {"n": 2, "blen": 2}, "thorough": {"n": 2, "blen": 2}},
+            budget={"quick": 100, "thorough": 200}, per_path_timeout={"quick": 60, "thorough": 60},
+            describe="the etag obligations of store_etags over a menu of 7 body tokens (absent, two contents of one UID, another UID, to-be-normalised, "
+                     "no UID, invalid): pre-state and target chosen by the solver, written body and kind of earlier history "
+                     "looped inside; exhaustive over the menu for every (back end, operation, condition) partition",
+            encodes=_store.STEP_ENCODES),
     Harness("store_etags", h_store_etags, body_store_etags,
             classes=[("put:ok", ("bare", 0, 0)), ("delete:ok", ("tree", 1, 0)), ("put:ok", ("vdir", 0, 0))],
             parts={"quick": _store.parts(mstore.KINDS)}, bounds=_B, budget={"quick": 60, "thorough": 420},
